@@ -36,6 +36,70 @@ assume pure func (v reflect.Value) Interface() interface{}
 
 assume func (w i.SafeWriter) Print(args ...interface{})
 
+-- The public entry points of the package are one-line delegations to internal/rfmt, internal/markers and
+-- internal/fmtforward. Each carries the contract of the function it delegates to: a property stated about
+-- "Sprint", "Fprintf", "EscapeMarkers"... is a property of THESE functions, and a delegation to the wrong sibling
+-- (Sprint -> Sprintln, EscapeMarkers -> StripMarkers) must fail here.
+func Sprint(args ...interface{}) (s RedactableString)
+  may-panic
+  modifies alloc, memU, fdp, fdk, fdar, fdao, fdal, fdf, fdfl
+  ensures [C01] WF(s, len(s), false) && clean(s, len(s))
+  ensures [C03] LS(s, len(s))
+  ensures [C08,C16] Routed(1, args)
+
+func Sprintf(format string, args ...interface{}) (s RedactableString)
+  public format
+  may-panic
+  modifies alloc, memU, fdp, fdk, fdar, fdao, fdal, fdf, fdfl
+  ensures [C01] WF(s, len(s), false) && clean(s, len(s))
+  ensures [C03] LS(s, len(s))
+  ensures [C08,C16] Routed(2, args) && sameView(fdf, format) && fdfl == len(format)
+
+func HelperForErrorf(format string, args ...interface{}) (s RedactableString, err error)
+  public format
+  may-panic
+  modifies alloc, memU, fdp, fdk, fdar, fdao, fdal, fdf, fdfl, gnwOut, ggoodOut, gerrOut
+  ensures [C15] gnwOut == 1 && ggoodOut ==> err == gerrOut && !isnil(err)
+  ensures [C15] !(gnwOut == 1 && ggoodOut) ==> isnil(err)
+  ensures [C01] WF(s, len(s), false) && clean(s, len(s))
+  ensures [C03] LS(s, len(s))
+  ensures [C15,C16] Routed(2, args) && sameView(fdf, format) && fdfl == len(format)
+
+func Sprintfn(printer func(w SafePrinter)) (s RedactableString)
+  may-panic
+  modifies alloc, memU
+  ensures [C01] WF(s, len(s), false) && clean(s, len(s))
+  ensures [C03] LS(s, len(s))
+
+func Fprint(w io.Writer, args ...interface{}) (n int, err error)
+  may-panic
+  modifies alloc, memU, wcount, wlast, wlen, wn, werr, fdp, fdk, fdar, fdao, fdal, fdf, fdfl
+  ensures [C16] wcount == old(wcount) + 1 && n == wn && err == werr
+  ensures [C01] WF(wlast, wlen, false)
+  ensures [C03] LS(wlast, wlen)
+  ensures [C16] Routed(1, args)
+
+func Fprintf(w io.Writer, format string, args ...interface{}) (n int, err error)
+  public format
+  may-panic
+  modifies alloc, memU, wcount, wlast, wlen, wn, werr, fdp, fdk, fdar, fdao, fdal, fdf, fdfl
+  ensures [C16] wcount == old(wcount) + 1 && n == wn && err == werr
+  ensures [C01] WF(wlast, wlen, false)
+  ensures [C03] LS(wlast, wlen)
+  ensures [C16] Routed(2, args) && sameView(fdf, format) && fdfl == len(format)
+
+func EscapeMarkers(s []byte) (r []byte)
+  modifies rxre, rxsrc, rxsrcl, rxrepl, rxrepll, rxres, rxresl, alloc
+  ensures [C07,C10] rxre == m.ReStripMarkers && sameView(rxsrc, s) && rxsrcl == len(s) && rxrepll == 1 && rxrepl[0] == 63 && sameView(rxres, r) && rxresl == len(r)
+
+func EscapeBytes(s []byte) (r RedactableBytes)
+  modifies alloc
+  ensures [C01,C10] WF(r, len(r), false) && clean(r, len(r))
+
+func RegisterRedactErrorFn(fn func(err error, p i.SafePrinter, verb rune))
+  modifies G$redactErrorFn
+  ensures [C17] ifmt.redactErrorFn == fn
+
 func JoinTo(w SafeWriter, delim RedactableString, values interface{})  [C11]
   loop 1 invariant 0 <= i && l == v.Len()
 
